@@ -91,10 +91,11 @@ class Ctx:
         if r.error and not r.violated:
             raise Machinery("TLC %s/%s: %s\n%s" % (module, cfg, r.error, r.stdout_tail[-1500:]))
         if expect_violation:
-            if r.violated != expect_violation:
+            exp = expect_violation if isinstance(expect_violation, (list, tuple, set)) else [expect_violation]
+            if r.violated not in exp:
                 raise Machinery("model sensitivity self-test: %s/%s with %s should violate %s, got %s" %
                                 (module, cfg, constants, expect_violation, r.violated or "no error"))
-            self.notes.append("sensitivity: %s %s violates %s as expected" % (cfg, constants, expect_violation))
+            self.notes.append("sensitivity: %s %s violates %s as expected" % (cfg, constants, r.violated))
             return r
         if r.violated or not r.ok:
             raise Machinery("the specification %s/%s does not satisfy %s (spec error, not a verdict "
@@ -136,7 +137,8 @@ class Ctx:
 
     def _mismatch(self, family, m):
         if m["class"] == "drift":
-            if self.drift < 5:
+            self.drift_printed = getattr(self, "drift_printed", 0) + 1
+            if self.drift_printed <= 3:
                 log("MODEL-DRIFT %s: %s expect=%s actual=%s" % (family, m.get("note", ""), m["expect"], m["actual"]))
             return
         if m["class"] == "known" and m.get("finding") in self.known:
@@ -153,7 +155,7 @@ class Ctx:
             raise Machinery("harness drive %s failed (rc=%s):\n%s" % (family, p.returncode, p.stdout[-3000:]))
         return open(tpath).read()
 
-    def validate(self, family, module, cfg, trace_text, max_rejects=3, timeout=1200, rule=None, dfs=False):
+    def validate(self, family, module, cfg, trace_text, max_rejects=3, timeout=1200, rule=None, dfs=False, cfg_constants=None):
         """Trace validation: TLC accepts the recorded events one by one; a rejected event is a
         violation; it is then removed so that the rest of the trace is still checked."""
         lines = [ln for ln in trace_text.split("\n") if ln.strip()]
@@ -165,7 +167,7 @@ class Ctx:
             self.rules.append(rule)
         while True:
             r = tlc.run_tlc(module, cfg, workers=1, extra_files={"trace.ndjson": "\n".join(lines) + "\n"},
-                            timeout=timeout, dfs=dfs)
+                            timeout=timeout, dfs=dfs, constants=cfg_constants)
             self.tlc_runs.append(dict(module=module, cfg=cfg, label="trace validation", **r.summary()))
             if r.ok:
                 self.states += r.distinct
@@ -185,7 +187,7 @@ class Ctx:
                 raise Machinery("trace validation %s failed without a position: %s\n%s" %
                                 (module, r.error, r.stdout_tail[-2500:]))
             ev = json.loads(lines[at - 1])
-            self.violations.append(dict(kind="trace", family=family, module=module, cfg=cfg,
+            self.violations.append(dict(kind="trace", family=family, module=module, cfg=cfg, cfg_constants=cfg_constants,
                                         case=ev, expect="an event the specification allows",
                                         actual="rejected by %s at event %d" % (module, at),
                                         note="trace validation rejected this recorded event"))
@@ -280,7 +282,52 @@ def check_C13(tier):
     return c.finish()
 
 
+CHAIN = {
+    "C01": dict(q="MC_C01_q.cfg", t=["MC_C01_t.cfg", "MC_C01_t4.cfg"], dev='{"AudAsSubject"}',
+                rule="every invocation x proof list over principals {A,B,M}(+C), links over all principals, Undef subject and "
+                     "Missing; non-trivial = chains violating the principal rules"),
+    "C02": dict(q="MC_C02_q.cfg", t=["MC_C02_t.cfg"], dev='{"CoversNoBoundary"}',
+                rule="every assignment of commands from the lattice {/, /a, /a/b, /ab, /b}(+/a/b/a, /a/a) to invocation and links; "
+                     "non-trivial = chains widening a command"),
+    "C03": dict(q="MC_C03_q.cfg", t=["MC_C03_t.cfg", "MC_C03_q.cfg"], dev=None,
+                rule="every distribution of acceptance sets over the statement slots of every link x argument point x hook; "
+                     "non-trivial = some statement rejects the (hooked) arguments"),
+    "C04": dict(q="MC_C04_q.cfg", t=["MC_C04_t.cfg"], dev=None,
+                rule="every combination of present/absent/inverted bounds on invocation and links x probe instants 1,3,5 (Tick); "
+                     "non-trivial = some token invalid at the probe instant"),
+    "C05": dict(q="MC_C05_q.cfg", t=["MC_C05_t.cfg"], dev='{"AudAsSubject"}',
+                rule="constructively generated conforming chains (repeated principals, attenuating commands, satisfiable policies, "
+                     "valid windows, irrelevant fields free); non-trivial = every rule holds (must be allowed)"),
+}
+
+
+def check_chain(pid):
+    def run(tier):
+        c = Ctx(pid, tier)
+        q = tier == "quick"
+        spec = CHAIN[pid]
+        cfgs = [spec["q"]] if q else spec["t"]
+        for cfg in cfgs:
+            r = c.mc("MC_Chain", cfg, dict(Deviations="{}", Emit="Emit"), label="ideal machine = declarative rules", timeout=1500)
+            c.replay("chain:" + pid, r.cases, rule=spec["rule"])
+            del r
+        if spec["dev"]:
+            c.mc("MC_Chain", spec["q"], dict(Deviations=spec["dev"], Emit=""),
+                 expect_violation=["Agree", "AudIrrelevant", "SoundPrincipals", "SoundCommands", "Complete"],
+                 label="sensitivity: deviation breaks machine = rules")
+        tr = c.drive("chain", 1500 if q else 20000)
+        c.validate("chain", "TraceChain", "TraceChain.cfg", tr, rule="random stores (<=6 principals, mixed key algorithms, "
+                   "chains <=6, 0..2 deviations) judged by TraceChain", cfg_constants=dict(Prop=pid))
+        tr = c.drive("chainfix", 300 if q else 6000)
+        c.validate("chainfix", "TraceChain", "TraceChain.cfg", tr, rule="the repository's fixture store: all proof lists of length <=2 "
+                   "and sampled longer ones, every persona/command/argument set", cfg_constants=dict(Prop=pid))
+        return c.finish()
+    return run
+
+
 CHECKS = {"C13": check_C13}
+for _p in CHAIN:
+    CHECKS[_p] = check_chain(_p)
 
 
 def setup():
@@ -325,7 +372,8 @@ def replay_file(path):
         finally:
             shutil.rmtree(d, ignore_errors=True)
     else:
-        r = tlc.run_tlc(v["module"], v["cfg"], workers=1, extra_files={"trace.ndjson": json.dumps(v["case"]) + "\n"})
+        r = tlc.run_tlc(v["module"], v["cfg"], workers=1, extra_files={"trace.ndjson": json.dumps(v["case"]) + "\n"},
+                        constants=v.get("cfg_constants"))
         log("trace validation of the recorded event: %s" % ("accepted" if r.ok else "rejected"))
         log("(the event holds what the real code returned when recorded; re-run the check to re-record)")
         return 0 if r.ok else 1
